@@ -6,6 +6,28 @@ DIFF_NOTE = ("Trusted: Lean 4.33 kernel (axioms propext, Classical.choice, Quot.
              "than verified: the Go analyser itself (hand-written Lean transcription, one function per Go function, explicit panics, fuel), "
              "float formatting of DiffInfo, x- extensions (oracle sweep only).")
 CLAIMED = {
+ "C09": {
+  "technique": "Lean 4 proof (escaper theorems for all strings; decide over the regenerated site table) + helper correspondence + hostile-payload AST differential",
+  "text": ("Proof: for EVERY string blockcomment output contains no */ (block_safe), comment output never leaves the // lines (line_safe, via equality of the "
+           "Split/Join implementation with a character map), and the escapeBackticks / generateReadableSpec expression evaluates back to the text (raw_roundtrip). "
+           "`all_sites_safe` is decided by the kernel over the site table REGENERATED on every run by marker rendering: 157 places where one of 43 free-text positions lands "
+           "in generated server and client files, each with the lexical context seen by go/scanner and the transformation observed on probe characters; every site must "
+           "carry the escaper its context needs (the exception list is empty after nine fix: commits). Tie: the real helpers are compared with the Lean functions on hostile and "
+           "random strings; each field then receives a payload closing its context and generation must fail or yield the same declaration skeleton."),
+  "note": ("Trusted: Lean kernel + audited axioms; vx extract (Sites.lean by marker rendering through the real generate command plumbing, go/scanner); go/parser; genlab. "
+           "Modelled rather than verified: text/template execution and goimports (reached by running them); sites no marker reaches; junction characters between template literals "
+           "and escaped values; targets other than server and client (cli, markdown) are not in the table yet."),
+ },
+ "C10": {
+  "technique": "Lean 4 proof (raw-string embedding round trip for all texts, JSON printer emits no carriage return) + read-back of the embedded documents from generated code",
+  "text": ("Proof, partial: for EVERY text without carriage return the Go expression produced by generateReadableSpec evaluates back to the text (embedded_text_is_the_text) "
+           "and the premise is discharged for JSON text (json_text_has_no_cr, json_string_embeds). Tie: the real helper is compared with the Lean function (C09 run) and, per run, "
+           "specs with hostile strings given as JSON or YAML are generated under minimal / full flatten / expand; SwaggerJSON and FlatSwaggerJSON are evaluated out of embedded_spec.go "
+           "(go/parser + strconv.Unquote) and compared: the original must be JSON-equal to the input, the flat one must describe the same API after full $ref expansion. That "
+           "analysis.Flatten and model planning preserve the API is explored, not proved; GET /swagger.json is not exercised yet."),
+  "note": ("Trusted: Lean kernel + audited axioms; go/parser + strconv.Unquote as evaluator of the embedded expression; go-openapi/loads and spec.ExpandSpec as $ref oracle; yaml.v3. "
+           "Modelled rather than verified: analysis.Flatten (dependency), the in-place rewrites of model planning, encoding/json."),
+ },
  "C11": {
   "technique": "Lean 4 proof (invariants by induction over all histories of a file-system state machine) + regenerated layout table + random-history correspondence with the swagger CLI",
   "text": ("Proof: the write policy of GenOpts.write (skip iff SkipExists and the file exists, else overwrite; nothing is removed) is a state machine; "
